@@ -236,6 +236,16 @@ func (w *World) RandBytes(n int, what string) []byte {
 	return b
 }
 
+// NotifDataLen draws the length of a plugin-made NOTIFICATION's data: mostly
+// below small, sometimes one of the lengths around an octet's range and the
+// largest that fits a message.
+func (w *World) NotifDataLen(small int, what string) int {
+	if n := Pick(w, what+"-class", -1, -1, -1, 255, 256, 1000, 4075); n >= 0 {
+		return n
+	}
+	return w.Draw(small, what)
+}
+
 // FinishRun shuts the server down and applies the generic end-of-run checks
 // every property shares: Close returns, no corebgp task is left, no panic.
 func (e *Env) FinishRun() bool {
